@@ -35,6 +35,8 @@ pub const KINDS: [&str; 7] = [
     "refactor.rewrite.list.type",
 ];
 
+static SELF_INLINE: std::sync::atomic::AtomicU8 = std::sync::atomic::AtomicU8::new(0);
+
 const BASE: &str = "file:///basepath/";
 
 fn uri_of(key: &str) -> Url {
@@ -164,6 +166,13 @@ fn first_diff_line(a: &str, b: &str) -> usize {
     i
 }
 
+fn is_self_ref(graph: &Graph, key: &str, id: u64) -> bool {
+    catch_unwind(AssertUnwindSafe(|| {
+        graph.collect(&Key::from_file_name(key)).find(id).and_then(|t| t.node.reference_key()).map(|k| k.to_string() == key).unwrap_or(false)
+    }))
+    .unwrap_or(false)
+}
+
 /// does resolving this action abort the process?  (tried in a child process)
 fn aborts_in_child(v: &Value, key: &str, line: usize, kind: usize) -> bool {
     let exe = match std::env::current_exe() { Ok(e) => e, Err(_) => return false };
@@ -191,6 +200,7 @@ pub fn execute(v: &Value, kinds: &[usize]) -> String {
     let notes = notes_of(v);
     let options = MarkdownOptions { refs_extension: ext.to_string() };
     let child = std::env::var("IWE_VERIF_CHILD").is_ok();
+    if std::env::var("IWE_VERIF_TRACE").is_ok() { eprintln!("TRACE {}", v); }
 
     if child {
         // child mode: resolve exactly one action and leave (the parent looks at the exit status)
@@ -234,10 +244,15 @@ pub fn execute(v: &Value, kinds: &[usize]) -> String {
                 per_kind[kind] += 1;
 
                 // an inline-section of a reference to the note itself may never return
-                let self_ref = kind == 3 && catch_unwind(AssertUnwindSafe(|| {
-                    (&graph).collect(&Key::from_file_name(&key)).find(id).and_then(|t| t.node.reference_key()).map(|k| k.to_string() == key).unwrap_or(false)
-                })).unwrap_or(false);
-                let ch = if self_ref && aborts_in_child(v, &key, line, kind) {
+                let self_ref = kind == 3 && is_self_ref(&graph, &key, id);
+                // the child probe is made for the first self-reference of the run; when that one
+                // returns (append_pre_header as repaired) the others are resolved in-process
+                let probe = self_ref && match SELF_INLINE.load(std::sync::atomic::Ordering::Relaxed) {
+                    0 => { let a = aborts_in_child(v, &key, line, kind); SELF_INLINE.store(if a { 2 } else { 1 }, std::sync::atomic::Ordering::Relaxed); a }
+                    1 => false,
+                    _ => aborts_in_child(v, &key, line, kind),
+                };
+                let ch = if probe {
                     Err("process aborted (stack overflow)".to_string())
                 } else {
                     resolve(&srv, &ca)
@@ -261,6 +276,14 @@ pub fn execute(v: &Value, kinds: &[usize]) -> String {
                             }
                             if ok {
                                 let off2 = offer(&s2, &key, line2, k2);
+                                // an inline-section that would not terminate is not attempted as a second step
+                                if let Ok(Some(ca2)) = &off2 {
+                                    let id2 = ca2.data.as_ref().and_then(|d| d.as_u64()).unwrap_or(u64::MAX);
+                                    if k2 == 3 && is_self_ref(&g1, &key, id2) {
+                                        acts_out.push(gapp("AO", &[first, "None".to_string()]));
+                                        continue;
+                                    }
+                                }
                                 let ch2 = match &off2 { Ok(Some(ca2)) => resolve(&s2, ca2), _ => Err("not offered".to_string()) };
                                 let mut g2 = g1.clone();
                                 let after2 = match &ch2 { Ok(l2) => rereads(&mut g2, l2, &options), Err(_) => "[]".into() };
